@@ -9,6 +9,7 @@ import Spade.Algo.Locate
 import Spade.Algo.Insert
 import Spade.Algo.LineIter
 import Spade.Algo.Remove
+import Spade.Algo.Constrain
 namespace Spade
 
 def scale1074N : Nat := 2 ^ 1074
@@ -490,6 +491,27 @@ def judgeExtra2 (hNew hOld : HCtx) (op res : Array String) (dump : Option St) : 
                 (fun _ => s!"p={p} hint={hint} nv={s.nV} nf={s.nF}"))
           | none => (hNew, [⟨"C02:model", "insert-model-failed", s!"p={p} hint={hint}"⟩])
       | _, _, _ => (hNew, [])
+    else (hNew, [])
+  | "con" | "trycon" | "canadd" =>
+    -- R3: the model of constraint insertion without splitting (`can_add_constraint`,
+    -- `try_add_constraint`, `add_constraint`): same answer, and the same links and flags index for
+    -- index afterwards (integer families: the line iterator under it uses float projections)
+    if hOld.kind == "cdt" && exactFam hOld.fam && r0 != "panic" && r0 != "timeout" then
+      match parseNat (op.getD 1 ""), parseNat (op.getD 2 "") with
+      | some a, some b =>
+        if a < s.nV && b < s.nV && a != b && 1 < s.nF then
+          if name == "canadd" then
+            (hNew, chk (res.getD 1 "" == (if s.canAddM a b then "1" else "0")) "C12:model" "can-add-model-differs"
+              (fun _ => s!"a={a} b={b} impl={res.toList} model={s.canAddM a b}"))
+          else
+            match s.tryAddConstraintM a b, dump with
+            | some (m, _), some d =>
+              (hNew, chk (St.sameStructure m d) "C04:model,C12:model" "constraint-model-differs"
+                (fun _ => s!"a={a} b={b} nv={s.nV} ne={s.nE} impl={res.toList}"))
+            | none, _ => (hNew, [⟨"C04:model", "constraint-model-failed", s!"a={a} b={b}"⟩])
+            | _, none => (hNew, [])
+        else (hNew, [])
+      | _, _ => (hNew, [])
     else (hNew, [])
   | "rm" | "trm" | "lrm" =>
     -- R3: the removal model (`remove_core` and the DCEL operations under it) must reproduce the
